@@ -856,6 +856,9 @@ func (g *Graph) factsLattice() Lattice[Facts] {
 									} else if _, ok := rhs.(*ast.SelectorExpr); ok && isFieldPath(rhs) && !mentions(exprStr(rhs), lhsStr) {
 										// a local copy of a field
 										n.setRel(token.EQL, lhs, rhs, true)
+									} else if b, ok := rhs.(*ast.BinaryExpr); ok && (b.Op == token.ADD || b.Op == token.SUB) && !mentions(exprStr(rhs), lhsStr) && g.Fi != nil {
+										// x := a + k  => x == a + k ;  x := a + b + k with b >= 0 known  => x >= a + k
+										n.sumFacts(g, lhs, rhs)
 									}
 								}
 							}
@@ -1351,4 +1354,74 @@ func isSimpleCond(e ast.Expr) bool {
 		return ok
 	})
 	return ok
+}
+
+// sumFacts records what an assignment lhs = <sum> tells about lhs: equality when the sum has one variable operand,
+// a lower bound when it has two and one of them is known non-negative here.
+func (f *Facts) sumFacts(g *Graph, lhs, rhs ast.Expr) {
+	var ops []ast.Expr
+	k := 0
+	okShape := true
+	var flat func(e ast.Expr, sign int)
+	flat = func(e ast.Expr, sign int) {
+		e = ast.Unparen(e)
+		if c, isC := constInt(f.info, e); isC {
+			if c > 1<<30 || c < -(1<<30) {
+				okShape = false
+			}
+			k += sign * int(c)
+			return
+		}
+		if b, isB := e.(*ast.BinaryExpr); isB && b.Op == token.ADD {
+			flat(b.X, sign)
+			flat(b.Y, sign)
+			return
+		}
+		if b, isB := e.(*ast.BinaryExpr); isB && b.Op == token.SUB {
+			flat(b.X, sign)
+			flat(b.Y, -sign)
+			return
+		}
+		if sign < 0 {
+			okShape = false
+		}
+		ops = append(ops, e)
+	}
+	flat(rhs, 1)
+	if !okShape || len(ops) == 0 || len(ops) > 2 {
+		return
+	}
+	for _, o := range ops {
+		if t := f.info.TypeOf(o); t == nil {
+			return
+		} else if _, _, isInt := intInfo(t); !isInt {
+			return
+		}
+		if len(callsIn(o)) > 0 {
+			if c, isCall := ast.Unparen(o).(*ast.CallExpr); !isCall || exprStr(c.Fun) != "len" {
+				return
+			}
+		}
+	}
+	lit := func(v int) ast.Expr { return &ast.BasicLit{Kind: token.INT, Value: fmtInt(v)} }
+	plus := func(e ast.Expr, v int) ast.Expr {
+		switch {
+		case v > 0:
+			return &ast.BinaryExpr{X: e, Op: token.ADD, Y: lit(v)}
+		case v < 0:
+			return &ast.BinaryExpr{X: e, Op: token.SUB, Y: lit(-v)}
+		}
+		return e
+	}
+	if len(ops) == 1 {
+		f.setRel(token.EQL, lhs, plus(ops[0], k), true)
+		return
+	}
+	d := newDBM(g, *f, nil)
+	for i := 0; i < 2; i++ {
+		if d.nonNeg(ops[1-i]) {
+			// lhs >= ops[i] + k
+			f.setRel(token.LSS, lhs, plus(ops[i], k), false)
+		}
+	}
 }
